@@ -68,7 +68,7 @@ func regionOf(b *base, off int) string {
 
 func main() {
 	c := vk.Init("C03")
-	c.Rule("for each base message (valid, serialized by the library from generated templates/populations, every tests/fix44 type, or by the reference encoder, including messages whose content is crafted so that a CheckSum look-alike inside a value carries the byte sum of the message after one substitution) the COMPLETE single-edit neighbourhood is enumerated: all 255*len substitutions, all 256*(len-1) interior insertions, all len deletions, all len-1 proper prefixes; each variant is parsed strict and non-strict into an empty message of the right type. Deciding clause: accepted => fixref.CheckFrame passes. Framing-neutral variants (a zero byte inserted into the BeginString value: changes neither the counted length nor the byte sum) are counted, not judged. distinct = (base, edit) pairs, all distinct; non-trivial = edit touches a framing field or a delimiter")
+	c.Rule("for each base message (valid, serialized by the library from generated templates/populations, every tests/fix44 type, or by the reference encoder, including messages whose content is crafted so that a CheckSum look-alike inside a value carries the byte sum of the message after one substitution) the COMPLETE single-edit neighbourhood is enumerated: all 255*len substitutions, all 256*(len-1) interior insertions, all len deletions, all len-1 proper prefixes; each variant is parsed strict and non-strict into an empty message of the right type, and (when refused there) also into a message object that holds the intact message from an earlier parse. Deciding clause: accepted => fixref.CheckFrame passes. Framing-neutral variants (a zero byte inserted into the BeginString value: changes neither the counted length nor the byte sum) are counted, not judged. distinct = (base, edit) pairs, all distinct; non-trivial = edit touches a framing field or a delimiter")
 	c.Assume("BeginString values of base messages contain no zero byte; base messages have one template position per tag")
 	nGen := c.Pick(24, 900)
 	nRef := c.Pick(8, 300)
@@ -183,6 +183,15 @@ func main() {
 		b := j.b
 		bsValStart := len(b.ft.Begin) + 1
 		bsValEnd := bytes.IndexByte(b.wire, 1)
+		// a second target per mode: a message object that already holds the intact message (an application that
+		// parses into one object again and again)
+		reused := map[bool]*fix.Message{}
+		for _, strict := range []bool{true, false} {
+			m := b.empty()
+			if ok, _ := accepts(strict, m, b.wire); ok {
+				reused[strict] = m
+			}
+		}
 		try := func(variant []byte, edit string, neutral bool, nontrivial bool) {
 			valid := fixref.CheckFrame(b.ft, variant) == nil
 			if valid && !neutral {
@@ -208,6 +217,21 @@ func main() {
 						atomic.AddInt64(&neutralRejected, 1)
 					}
 					continue
+				}
+				if !ok && !valid && reused[strict] != nil {
+					// the same variant parsed into the object that holds the intact message
+					if ok2, pan2 := accepts(strict, reused[strict], variant); pan2 == "" {
+						c.Count("variants_also_parsed_into_a_filled_object", 1)
+						if ok2 {
+							c.Violate(fmt.Sprintf("C03/accepted-damaged/into-filled-object/%s/%s/%s", kinds[j.kind], regionOf(b, j.off), mode),
+								fmt.Sprintf("%s parser accepted a %s when parsing into a message object that held the intact message (a fresh object refuses it): %s (reference: %v)", mode, edit, vk.Trunc(fixref.Pretty(variant), 500), fixref.CheckFrame(b.ft, variant)),
+								map[string]interface{}{"base": b.name, "base_wire": vk.Trunc(fixref.Pretty(b.wire), 800), "edit": edit, "variant_hex": fmt.Sprintf("%x", variant), "seed": c.Seed})
+						}
+						// a refused parse may leave the object half-updated: fill it with the intact message again
+						if ok3, _ := accepts(strict, reused[strict], b.wire); !ok3 {
+							delete(reused, strict)
+						}
+					}
 				}
 				if ok && !valid {
 					reg := regionOf(b, j.off)
